@@ -109,6 +109,8 @@ def gen_program(rng, qbytes=256, nthreads=None, maxops=8, flushes=True, style=No
                 ops.append(("D", rng.choice([0, 1, 7, 33, 100, cap]) if style != "small" else rng.randint(0, 20)))
             elif r < 0.88:
                 ops.append(("O", g, rng.choice([0, 1])))
+            elif r < 0.91:
+                ops.append(("X", g))          # a definition that is refused (duplicate id)
             elif flushes:
                 ops.append(("L",))
             else:
@@ -131,7 +133,7 @@ def program_text(prog, cfg, script=None):
         for op in ops:
             if op[0] == "F":
                 toks.append("F%d:%d" % (op[1], op[2]))
-            elif op[0] in "AU":
+            elif op[0] in "AUX":
                 toks.append("%s%d" % (op[0], op[1]))
             elif op[0] == "D":
                 toks.append("D%d" % op[1])
